@@ -138,6 +138,12 @@ pub mod shim {
     pub broadcast proof fn axiom_ip6addr_eq()
         ensures #[trigger] <Ipv6Addr as vstd::std_specs::cmp::PartialEqSpec>::obeys_eq_spec(),
             forall|a: Ipv6Addr, b: Ipv6Addr| #[trigger] <Ipv6Addr as vstd::std_specs::cmp::PartialEqSpec>::eq_spec(&a, &b) == (a == b) {}
+    pub assume_specification [Ipv6Addr::is_multicast] (a: &Ipv6Addr) -> (r: bool)
+        ensures r == (ip6_octets(*a)[0] == 0xff);
+    pub assume_specification [Ipv4Addr::is_multicast] (a: &Ipv4Addr) -> (r: bool)
+        ensures r == (224 <= ip4_octets(*a)[0] <= 239);
+    pub assume_specification [Ipv4Addr::is_broadcast] (a: &Ipv4Addr) -> (r: bool)
+        ensures r == (ip4_octets(*a) == seq![255u8, 255u8, 255u8, 255u8]);
     /// std `Hash`/`Eq` of IpAddr are lawful (trusted).
     #[verifier::external_body]
     pub broadcast proof fn axiom_ipaddr_key_model()
